@@ -81,6 +81,13 @@ pub fn render(i: &Instruction, target: i64, rng: &mut Rng, allow_forward: bool, 
 /// returns the number of operands the bias was applied to
 pub fn render_biased(i: &Instruction, target: i64, rng: &mut Rng, allow_forward: bool, uniq: &mut u32, bias: i64) -> (Rendered, usize)
 {
+	render_full(i, target, rng, allow_forward, uniq, bias, 0)
+}
+
+/// `arity`: 0 = the documented operand list; 1 / 2 / 3 = one operand too many (a register / a number / the last operand
+/// again); -1 = the last operand left out.  Every mnemonic has exactly one operand count, so any other must be diagnosed.
+pub fn render_full(i: &Instruction, target: i64, rng: &mut Rng, allow_forward: bool, uniq: &mut u32, bias: i64, arity: i8) -> (Rendered, usize)
+{
 	use Instruction::*;
 	let style = rng.below(4);
 	let mut pre = String::new();
@@ -147,6 +154,15 @@ pub fn render_biased(i: &Instruction, target: i64, rng: &mut Rng, allow_forward:
 		Uxtb{dst, value} => ("UXTB".into(), vec![r(dst, rng), r(value, rng)]),
 		Uxth{dst, value} => ("UXTH".into(), vec![r(dst, rng), r(value, rng)]),
 	};
+	let mut ops = ops;
+	match arity
+	{
+		1 => ops.push(reg_name(Register::try_from(1u8).unwrap(), rng, style)),
+		2 => ops.push("1".into()),
+		3 => { let l = ops.last().cloned().unwrap_or("R0".into()); ops.push(l) },
+		-1 => { ops.pop(); },
+		_ => (),
+	}
 	let mstyle = rng.below(4);
 	let mn = case_mix(&mn, rng, mstyle);
 	let mut stmt = mn;
